@@ -12,6 +12,24 @@ SYMS = [i for i in range(1, 9)] + [{"$tip": f"T{i}"} for i in range(1, 9)]
 INVALID = [0, 9, -1, 1.0, "1", {"$none": 1}, 2.5, 256, [], ]  # as a tip on its own; [] handled separately
 
 
+import enum  # noqa: E402
+
+
+class Channel(enum.IntEnum):
+    """a user's own names for the pipetting channels: an int subclass that is not robotools' Tip"""
+
+    c0 = 0
+    c1 = 1
+    c2 = 2
+    c3 = 3
+    c4 = 4
+    c5 = 5
+    c6 = 6
+    c7 = 7
+    c8 = 8
+    c9 = 9
+
+
 def num(sym):
     return sym if isinstance(sym, int) else int(sym["$tip"][1:])
 
@@ -111,6 +129,10 @@ class Harness(cm.BaseB):
                 for rest in itertools.product(SYMS, repeat=n - 1):
                     for ep in ("aspirate_well", "dispense_well"):
                         yield {"ep": ep, "tip": [f] + list(rest)}
+                    if n == 2:
+                        # the same pair as a one-shot iterator through the methods that emit several records
+                        for ep in ("aspirate", "transfer_e", "transfer_f"):
+                            yield {"ep": ep, "tip": [f] + list(rest), "cont": "iter"}
         else:
             for m in range(chunk["lo"], min(256, chunk["lo"] + 32)):
                 members = [t for t in range(1, 9) if m >> (t - 1) & 1]
@@ -120,6 +142,9 @@ class Harness(cm.BaseB):
                 for fi, tips in enumerate(forms):
                     for ep in ("evo_aspirate", "evo_dispense", "evo_wash"):
                         yield {"ep": ep, "tip": tips, "form": fi}
+                # tip numbers given as members of a user's own IntEnum
+                for ep in ("evo_aspirate", "evo_dispense", "evo_wash"):
+                    yield {"ep": ep, "tip": members, "form": 0, "ienum": True}
                 # one of the selected tips moves nothing: it is still selected
                 for ep in ("evo_aspirate", "evo_dispense"):
                     yield {"ep": ep, "tip": members, "form": 0, "zero": len(members) // 2}
@@ -129,6 +154,9 @@ class Harness(cm.BaseB):
                 for bad in ([0], [9], [1, {"$tip": "Any"}], [{"$tip": "Any"}], [1.0], ["1"], [1, 0], [{"$none": 1}]):
                     for ep in ("evo_aspirate", "evo_dispense", "evo_wash"):
                         yield {"ep": ep, "tip": bad, "invalid": True}
+                for bad in ([0], [9], [1, 9]):
+                    for ep in ("evo_aspirate", "evo_dispense", "evo_wash"):
+                        yield {"ep": ep, "tip": bad, "invalid": True, "ienum": True}
 
     # --------------------------------------------------------------
     def call(self, ep, wl, src, dst, tip):
@@ -263,6 +291,8 @@ class Harness(cm.BaseB):
     def one_evo(self, case):
         ep, raw = case["ep"], case["tip"]
         tips = dec(raw)
+        if case.get("ienum"):
+            tips = [Channel(t) for t in tips]
         invalid = case.get("invalid", False)
         n = len(tips)
         wells = [f"{'ABCDEFGHIJKLMNOP'[i]}01" for i in range(n)]
